@@ -98,7 +98,7 @@ fn twin_of(w: &mut World, t: usize, rng: &mut Rng) -> Option<usize> {
 
 /// Directed scenario: a transaction committed within the last three blocks gets a pooled child; the blocks down to
 /// its commitment are replaced by a branch that (with_twin) commits a conflicting twin of it, or (otherwise) nothing.
-fn directed_reorg(w: &mut World, rng: &mut Rng, nonce: u64, with_twin: bool) -> Result<Option<(usize, usize)>, String> {
+pub fn directed_reorg(w: &mut World, rng: &mut Rng, nonce: u64, with_twin: bool) -> Result<Option<(usize, usize)>, String> {
     let n = w.chain.len();
     let mut cands = vec![];
     for back in 1..=3.min(n) {
@@ -111,6 +111,16 @@ fn directed_reorg(w: &mut World, rng: &mut Rng, nonce: u64, with_twin: bool) -> 
     }
     let Some((back, t)) = pick(rng, &cands) else { return Ok(None) };
     let out0 = w.txs[t].outs[0];
+    // sometimes the same output is first READ (cell dep) by one pooled transaction and then SPENT by another: the re-added
+    // transaction then has a dep-reader child and a spender child on one output
+    if rng.chance(1, 2) && w.spendable().contains(&out0) {
+        let other: Vec<usize> = w.spendable().into_iter().filter(|o| *o != out0).collect();
+        if let Some(o) = pick(rng, &other) {
+            if let Some(reader) = w.new_tx(&[o], &[out0], &[], 1, rng.range(800, 5000), rng) {
+                let _ = w.submit(reader);
+            }
+        }
+    }
     if let Some(child) = w.new_tx(&[out0], &[], &[], 1, rng.range(800, 5000), rng) {
         let _ = w.submit(child);
     }
